@@ -99,6 +99,10 @@ func c15MW(i int, b string, rec *c15Rec, want map[string]string) mcp.Middleware 
 			case "short":
 				return map[string]interface{}{"short": i, "nonce": nonce}, nil
 			case "fail":
+				if i%2 == 1 {
+					// a failure of the middleware's own making that carries a context error (a backend call that timed out)
+					return nil, fmt.Errorf("mw-fail-%d-%s: backend: %w", i, nonce, context.DeadlineExceeded)
+				}
 				return nil, fmt.Errorf("mw-fail-%d-%s", i, nonce)
 			case "modReq":
 				// the middleware hands a NEW request (a copy with its mark in the arguments) and a DERIVED context to next:
@@ -240,8 +244,9 @@ func c15Run(sc c15Scenario) (res c15Result) {
 		// requests of other methods travel through the chain as well
 		peer.PostJSON(ctx, msg, nil, []byte(`{"jsonrpc":"2.0","id":"plain-ping","method":"ping"}`), false)
 		peer.PostJSON(ctx, msg, nil, []byte(`{"jsonrpc":"2.0","id":"plain-list","method":"resources/list"}`), false)
+		peer.PostJSON(ctx, msg, nil, []byte(`{"jsonrpc":"2.0","id":"plain-unknown","method":"verif/custom"}`), false)
 		st.WaitFor(time.Second, func(raw []byte, eof bool) bool {
-			return strings.Contains(string(raw), `"plain-ping"`) && strings.Contains(string(raw), `"plain-list"`)
+			return strings.Contains(string(raw), `"plain-ping"`) && strings.Contains(string(raw), `"plain-list"`) && strings.Contains(string(raw), `"plain-unknown"`)
 		})
 		time.Sleep(5 * time.Millisecond)
 	} else {
@@ -315,6 +320,7 @@ func c15Run(sc c15Scenario) (res c15Result) {
 		// requests of other methods travel through the chain as well
 		peer.PostJSON(ctx, url, map[string]string{"Mcp-Session-Id": sid0}, []byte(`{"jsonrpc":"2.0","id":"plain-ping","method":"ping"}`), false)
 		peer.PostJSON(ctx, url, map[string]string{"Mcp-Session-Id": sid0}, []byte(`{"jsonrpc":"2.0","id":"plain-list","method":"resources/list"}`), false)
+		peer.PostJSON(ctx, url, map[string]string{"Mcp-Session-Id": sid0}, []byte(`{"jsonrpc":"2.0","id":"plain-unknown","method":"verif/custom"}`), false)
 	}
 	rec.mu.Lock()
 	defer rec.mu.Unlock()
